@@ -26,7 +26,7 @@ ASSUMPTIONS = [
     "(VProcessor + engine execution); emptiness is cross-checked against vmon/model.py",
     "non-deterministic slices discarded as in C02",
 ]
-MIN_OBS = {"diagnosed": 800, "empty_relations": 200, "doomed_without_executor": 100, "doomed_with_executor": 200, "executor_calls": 300}
+MIN_OBS = {"diagnosed": 800, "programs_with_user_defined_filter": 300, "empty_relations": 200, "doomed_without_executor": 100, "doomed_with_executor": 200, "executor_calls": 300}
 CASE_TIMEOUT = 60
 
 
@@ -41,11 +41,15 @@ def gen_case(rng, tier):
     common = dict(max_depth=2 if tier == "quick" or rng.random() < 0.6 else 3, raw_leaves=(mode == "it"), sort_then_slice_prob=0.5,
                   weights={"sel": 1.6, "slice": 1.4, "chain": 1.5, "join": 1.4, "sort": 0.5, "mat": 0.4}, max_rows_choices=(0, 0, 1, 2, 3, 5))
     if mode == "it":
-        cfg = gen.Cfg(engines=("it",), ops=("calc", "proj", "sel", "dedup", "sort", "slice", "chain", "mat"), **common)
+        # incl. user-defined operations: a RowFilter that is not empty-invariant (it may remove every
+        # row), a Reordering, a marker relation - Diagnostics has to treat them by their declared flags
+        common["weights"] = dict(common["weights"], cap=1.2, rev=0.4, mark=0.4)
+        cfg = gen.Cfg(engines=("it",), ops=("calc", "proj", "sel", "dedup", "sort", "slice", "chain", "mat", "cap", "rev", "mark"), **common)
     elif mode == "sql":
         cfg = gen.Cfg(engines=("sql",), ops=("calc", "proj", "sel", "dedup", "sort", "slice", "chain", "join"), **common)
     else:
-        cfg = gen.Cfg(engines=("sql", "it", "it2"), ops=("calc", "proj", "sel", "dedup", "sort", "slice", "chain", "join", "mat"), xfer_prob=0.2, **common)
+        common["weights"] = dict(common["weights"], cap=0.8, rev=0.3, mark=0.3)
+        cfg = gen.Cfg(engines=("sql", "it", "it2"), ops=("calc", "proj", "sel", "dedup", "sort", "slice", "chain", "join", "mat", "cap", "rev", "mark"), xfer_prob=0.2, **common)
     g = gen.Gen(rng, cfg)
     state = g.tree()
     # sprinkle emptiness-inducing operations
@@ -140,6 +144,8 @@ def run_case(case):
         c["executor_calls"] = len(calls)
         if empty:
             c["empty_relations"] = 1
+        if "f" in gen.op_signature(prog):
+            c["programs_with_user_defined_filter"] = 1
         if d0.is_doomed:
             c["doomed_without_executor"] = 1
             if not empty:
